@@ -6,8 +6,8 @@ import numpy as np
 import floatcorr
 from check import run_model_driver
 
-GEN = ['numeric']
-LEAN_MODULES = ['XfabVerif.Proofs.C11', 'XfabVerif.Proofs.C11Real']
+GEN = ['numeric', 'flip']
+LEAN_MODULES = ['XfabVerif.Proofs.C11', 'XfabVerif.Proofs.C11Real', 'XfabVerif.Proofs.C11Table']
 # definitions the hand-written model mirrors (see harness/pins.py): a source change breaks the tie
 PINS = ['xfab/detector.py:trans_orientation', 'xfab/detector.py:image_flipping']
 LEAN_DRIVER_MODULES = ['XfabVerif.Model.Flip', 'XfabVerif.Gen.FloatDispatch']
